@@ -2,7 +2,8 @@
 (* Universes for the exhaustive runs of LogRoute, and behaviour emission.   *)
 EXTENDS LogRoute, Json, FiniteSetsExt
 
-CONSTANT SampleK       \* print one behaviour per explored reload transition with probability 1/SampleK
+CONSTANTS SampleK,     \* print the behaviours of the explored (re)load transitions whose checksum is
+          SampleR      \* SampleR modulo SampleK (1, 0: all of them) - a deterministic, seed-dependent sample
 
 A == "file:a.log"
 B == "file:b.log"
@@ -17,43 +18,55 @@ E(h, kind, ds) == [head |-> h, kind |-> kind, dests |-> ds]
 NoDot == <<110,111,100,111,116>>     \* "nodot"
 
 (* sections of at most n entries with pairwise different (name, type) keys *)
-SectionsUpTo(Entries, n) ==
-    {S \in UNION {kSubset(k, Entries) : k \in 0..n} : \A x, y \in S : x # y => KeyOf(x) # KeyOf(y)}
+Subsets(Entries, n) == {{}} \cup {{x} : x \in Entries}
+                       \cup (IF n >= 2 THEN {{x, y} : x \in Entries, y \in Entries} ELSE {})
+                       \cup (IF n >= 3 THEN {{x, y, z} : x \in Entries, y \in Entries, z \in Entries} ELSE {})
+SectionsUpTo(Entries, n) == {S \in Subsets(Entries, n) : \A x, y \in S : x # y => KeyOf(x) # KeyOf(y)}
 
 Values4 == {<<"s", <<A>>>>, <<"s", <<B>>>>, <<"l", <<A, B>>>>, <<"l", <<B>>>>}
-Values6 == Values4 \cup {<<"l", <<>>>>, <<"l", <<A, A>>>>}
 
 EntriesOf(Heads, Values) == {E(h, v[1], v[2]) : h \in Heads, v \in Values}
 
-(* quick reload universe: 6 names (4 well-formed over 3 facilities, one with an unknown severity    *)
+(* q: quick reload universe: 6 names (4 well-formed over 3 facilities, one with an unknown severity *)
 (* word after a valid one, one without '.'), string and list values over 2 destinations             *)
 QHeads == {H(Core, <<C("ge", WARNING)>>), H(Core, <<C("lit", 3)>>), H(Star, <<C("ge", WARNING)>>), HStar(Modx),
            H(Core, <<C("lit", 3), C("lit", 0)>>), HNoDot(NoDot)}
-QSections == SectionsUpTo(EntriesOf(QHeads, Values4), 2)
 
-(* thorough reload universe: every facility with three expressions, two malformed names, six values *)
+(* t: thorough reload universe: 8 names (every facility, `*.*`, a comma list with < and =, two   *)
+(* malformed names), five values incl. the empty list                                               *)
 THeads == {H(f, <<C("ge", WARNING)>>) : f \in {Core, Modx, Star}}
-          \cup {H(f, <<C("lit", 3)>>) : f \in {Core, Modx, Star}}
-          \cup {HStar(f) : f \in {Core, Modx, Star}}
-          \cup {H(Core, <<C("lt", 3), C("eq", 5)>>), H(Modx, <<C("lit", 3), C("lit", 0)>>), HNoDot(NoDot)}
-TSections == SectionsUpTo(EntriesOf(THeads, Values6), 2)
+          \cup {H(Core, <<C("lit", 3)>>), HStar(Star),
+                H(Modx, <<C("lt", 3), C("eq", 5)>>), H(Modx, <<C("lit", 3), C("lit", 0)>>), HNoDot(NoDot)}
+Values5 == Values4 \cup {<<"l", <<>>>>}
 
-(* three entries over a smaller pool *)
+(* t3: three entries over a smaller pool *)
 T3Heads == {H(Core, <<C("ge", WARNING)>>), H(Core, <<C("le", 3)>>), HStar(Star), H(Modx, <<C("gt", 3), C("lit", 0)>>)}
-T3Sections == SectionsUpTo(EntriesOf(T3Heads, Values4), 3)
+T3Values == {<<"s", <<A>>>>, <<"s", <<B>>>>, <<"l", <<A, B>>>>, <<"l", <<A, A>>>>}
 
-(* default-target universe: modd is registered with default target D *)
+(* d: default-target universe: modd is registered with default target D *)
 DHeads == {H(Modd, <<C("ge", 5)>>), H(Modd, <<C("lit", 3)>>), H(Modd, <<C("lit", WARNING), C("lit", 0)>>),
            H(Star, <<C("ge", WARNING)>>), HStar(Core)}
 DValues == {<<"s", <<A>>>>, <<"s", <<D>>>>, <<"l", <<>>>>, <<"l", <<A, D>>>>}
-DSections == SectionsUpTo(EntriesOf(DHeads, DValues), 2)
 
-(* severity-expression universe: one entry  modx.<expr> -> a.log  for every expression of up to     *)
-(* MaxComps components over all operators and all severity words plus an unknown word               *)
+(* s1 / s2 / s3: severity-expression universe: one entry  modx.<expr> -> a.log  for every expression *)
+(* of up to 1 / 2 / 3 components over all operators and all severity words plus an unknown word      *)
 AllComps == {C(op, sv) : op \in Ops, sv \in 0..NSev}
-SevHeads(n) == UNION {{H(Modx, cs) : cs \in [1..k -> AllComps]} : k \in 0..n} \cup {HStar(Modx), HNoDot(NoDot)}
-Sev2Sections == {{E(h, "s", <<A>>)} : h \in SevHeads(2)}
-Sev3Sections == {{E(h, "s", <<A>>)} : h \in SevHeads(3)}
+SevHeads(n) == {HStar(Modx), HNoDot(NoDot), H(Modx, <<>>)}
+               \cup {H(Modx, cs) : cs \in [1..1 -> AllComps]}
+               \cup (IF n >= 2 THEN {H(Modx, cs) : cs \in [1..2 -> AllComps]} ELSE {})
+               \cup (IF n >= 3 THEN {H(Modx, cs) : cs \in [1..3 -> AllComps]} ELSE {})
+SevSections(n) == {{E(h, "s", <<A>>)} : h \in SevHeads(n)}
+
+(* TLC evaluates every zero-arity constant definition at start-up, so the universe is selected by a *)
+(* constant and only that one is built                                                              *)
+CONSTANT U
+TheSections == CASE U = "q"  -> SectionsUpTo(EntriesOf(QHeads, Values4), 2)
+                 [] U = "t"  -> SectionsUpTo(EntriesOf(THeads, Values5), 2)
+                 [] U = "t3" -> SectionsUpTo(EntriesOf(T3Heads, T3Values), 3)
+                 [] U = "d"  -> SectionsUpTo(EntriesOf(DHeads, DValues), 2)
+                 [] U = "s1" -> SevSections(1)
+                 [] U = "s2" -> SevSections(2)
+                 [] U = "s3" -> SevSections(3)
 
 NoDefaults == <<>>
 ModdDefault == (Modd :> D)
@@ -64,9 +77,19 @@ BugKeepBits == {"keepbits"}
 BugNoReset == {"noreset"}
 BugNoHook == {"nohook"}
 
+ASSUME SyntaxAgrees
+
 (* one complete behaviour per explored (re)load transition; the history is hidden by the VIEW *)
+DestNum(d) == CASE d = A -> 1 [] d = B -> 2 [] OTHER -> 3
+RECURSIVE SumSeq(_, _)
+SumSeq(s, i) == IF i > Len(s) THEN 0 ELSE s[i] + SumSeq(s, i + 1)
+EntrySum(x) == SumSeq(x.name, 1) * 7 + (IF x.kind = "s" THEN 3 ELSE 11) + SumSeq([j \in DOMAIN x.dests |-> (j + 1) * DestNum(x.dests[j])], 1) * 13
+EventSum(ev) == IF ev.e = "load" THEN 1 + SumSeq([j \in DOMAIN ev.sec |-> (j + 2) * EntrySum(ev.sec[j])], 1)
+                ELSE IF ev.e = "nosec" THEN 5 ELSE 9
+Checksum(h) == SumSeq([i \in DOMAIN h |-> (2 * i + 1) * EventSum(h[i])], 1)
+
 EmitBehaviour ==
     \/ hist' = hist
-    \/ (SampleK > 1 /\ RandomElement(1..SampleK) # 1)
+    \/ (SampleK > 1 /\ Checksum(hist') % SampleK # SampleR)
     \/ PrintT("@@E" \o ToJson(hist'))
 =============================================================================
